@@ -380,8 +380,8 @@ def c05(tier, seed):
             n0 = len(g.lines)
             g.lines.append('!snap c0'); g.out.append('ok')
             r = g.step_mutator('c0')
-            if r == 'rej':
-                g.lines.append('!same c0'); g.out.append('ok')
+            if r is not None:
+                g.lines.append('!same-if-rej c0'); g.out.append('ok')
             g.do('obs c0')
         yield dict(lines=g.lines, pool=pool, tag='C05 history seed=%d' % (seed * 613 + j))
 
@@ -544,8 +544,12 @@ def readonly_ops(L, rng, a='c0', b='c1', n=0):
 
 def two_complexes(L, rng, fams):
     fa, fb = rng.choice(fams), rng.choice(fams)
-    L.many(build_lines(fa, 'c0', 'faces', attrs=True))
-    L.many(build_lines(fb, 'c1', rng.choice(['faces', 'basis'])))
+    L.many(build_lines(fa, 'c0', 'faces', attrs=(rng.random() < 0.6)))
+    L.many(build_lines(fb, 'c1', rng.choice(['faces', 'basis']), attrs=False))
+    if rng.random() < 0.5:
+        for t in L.toks('c1'):
+            if rng.random() < 0.5:
+                L.do('dset c1 %s %d %d' % (t, rng.randrange(3), rng.randrange(5)))
 
 
 def c08(tier, seed):
@@ -709,8 +713,18 @@ def c10(tier, seed):
         L.many(build_lines(fam, 'c0'))
         L.do('copy c0 c1'); L.do('!cmp c0 c1'); L.do('q c0 eq c1'); L.do('q c1 le c0')
         names = L.toks('c1')
-        kind = j % 4
-        if names and kind == 0:
+        kind = j % 5
+        if kind == 4:
+            # same names and orders everywhere, but two simplices of one order exchange their names: faces differ
+            c1 = L.ex.objs['c1']
+            byk = {}
+            for t in names:
+                byk.setdefault(B.orderOf(c1, L.ex.name(t)), []).append(t)
+            cand = [v for k, v in byk.items() if len(v) >= 2]
+            if cand:
+                a, b = rng.sample(rng.choice(cand), 2)
+                L.do('relabel c1 {%s:u995}' % a); L.do('relabel c1 {%s:%s}' % (b, a)); L.do('relabel c1 {u995:%s}' % b)
+        elif names and kind == 0:
             L.do('del c1 ' + rng.choice(names))          # strictly smaller
             L.do('q c1 lt c0'); L.do('q c0 gt c1'); L.do('q c0 ne c1')
         elif names and kind == 1:
@@ -747,6 +761,16 @@ def c11(tier, seed):
         lines = build_lines(fam, 'c0', ['faces', 'basis'][i % 2], attrs=(i % 4 == 0))
         lines += ['!snap c0', 'flag c0 f', '!flag c0 f', '!same c0', 'obs f', 'flag f g', 'obs g', '!samefam f g']
         yield dict(lines=lines, pool=pool, tag='C11 flag of %s' % (sorted(map(sorted, fam)),))
+    for n in (5, 6):
+        lines = ['new c0'] + ['add c0 u%d [] -' % p for p in range(n)] + ['addb c0 - [u%d,u%d] -' % (a, b) for a, b in itertools.combinations(range(n), 2)]
+        yield dict(lines=lines + ['flag c0 f', '!flag c0 f', 'obs f'], pool='int', tag='C11 flag of the complete graph K%d' % n)
+        # the same reached by growing: all edges but one, flag, add the last edge, grow
+        last = 'addb f - [u%d,u%d] -' % (n - 2, n - 1)
+        L = Live('int', 'C11 grow to K%d' % n)
+        L.many(lines[:-1]); L.do('flag c0 f'); r = L.do(last); L.do('grow f ' + Lst([r.split()[1]])); L.do('obs f')
+        L.many(['new s'] + ['add s u%d [] -' % p for p in range(n)] + ['addb s - [u%d,u%d] -' % (a, b) for a, b in itertools.combinations(range(n), 2)])
+        L.do('flag s t'); L.do('!samefam f t')
+        yield L.case()
     # growing: a flag complex, then edges added and growFlagComplex, against rebuilding from scratch
     n = 700 if tier == 'quick' else 6000
     for j in range(n):
@@ -1045,7 +1069,7 @@ def c16(tier, seed):
     for i, (fa, fb) in enumerate(pairs):
         pool = POOL_NAMES[i % len(POOL_NAMES)]
         L = Live(pool, 'C16 %s | %s' % (sorted(map(sorted, fa)), sorted(map(sorted, fb))))
-        L.many(build_lines(fa, 'c0', 'faces', attrs=True)); L.many(build_lines(fb, 'c1', 'faces'))
+        L.many(build_lines(fa, 'c0', 'faces', attrs=(i % 3 != 0))); L.many(build_lines(fb, 'c1', 'faces', attrs=(i % 4 == 1)))
         kind = i % 5
         n0, n1 = L.toks('c0'), L.toks('c1')
         if kind == 1 and n1:
